@@ -3,6 +3,7 @@ package openapi3filter
 import (
 	"bytes"
 	"context"
+	"encoding/json"
 	"errors"
 	"fmt"
 	"io"
@@ -226,6 +227,12 @@ func ValidateParameter(ctx context.Context, input *RequestValidationInput, param
 		if value, schema, found, err = decodeContentParameter(parameter, input); err != nil {
 			return &RequestError{Input: input, Parameter: parameter, Err: err}
 		}
+		if !found && schema == nil && len(parameter.Content) == 1 {
+			// the parameter was not sent: the schema of its JSON content tells the default
+			if mt := parameter.Content.Get("application/json"); mt != nil && mt.Schema != nil {
+				schema = mt.Schema.Value
+			}
+		}
 	} else {
 		if value, found, err = decodeStyledParameter(parameter, input); err != nil {
 			return &RequestError{Input: input, Parameter: parameter, Err: err}
@@ -246,6 +253,15 @@ func ValidateParameter(ctx context.Context, input *RequestValidationInput, param
 
 		if value != nil {
 			req := input.Request
+			jsonText := ""
+			if parameter.Content != nil {
+				// a parameter described by its content is written the way it is read: as JSON text
+				data, err := json.Marshal(value)
+				if err != nil {
+					return &RequestError{Input: input, Parameter: parameter, Err: err}
+				}
+				jsonText = string(data)
+			}
 			switch parameter.In {
 			case openapi3.ParameterInPath:
 				// Path parameters are required.
@@ -258,7 +274,11 @@ func ValidateParameter(ctx context.Context, input *RequestValidationInput, param
 				// a parameter sent with an empty value reads as not supplied: the default takes
 				// the place of that empty value (it is not added next to it, once per validation)
 				q.Del(parameter.Name)
-				populateDefaultQueryParameters(q, parameter.Name, value, explode, parameter.Style)
+				if parameter.Content != nil {
+					q.Add(parameter.Name, jsonText)
+				} else {
+					populateDefaultQueryParameters(q, parameter.Name, value, explode, parameter.Style)
+				}
 				req.URL.RawQuery = q.Encode()
 				// the input caches the parsed query: keep it in step with the request,
 				// or validating this input again would add the default a second time
@@ -268,7 +288,11 @@ func ValidateParameter(ctx context.Context, input *RequestValidationInput, param
 					req.Header = make(http.Header) // a request assembled by hand may have none
 				}
 				// (a header sent with an empty value reads as not supplied: the default takes its place)
-				req.Header.Set(parameter.Name, defaultValueToString(value, parameter.Explode != nil && *parameter.Explode))
+				if parameter.Content != nil {
+					req.Header.Set(parameter.Name, jsonText)
+				} else {
+					req.Header.Set(parameter.Name, defaultValueToString(value, parameter.Explode != nil && *parameter.Explode))
+				}
 			case openapi3.ParameterInCookie:
 				if req.Header == nil {
 					req.Header = make(http.Header)
@@ -283,9 +307,13 @@ func ValidateParameter(ctx context.Context, input *RequestValidationInput, param
 						}
 					}
 				}
+				cookieValue := defaultValueToString(value, false)
+				if parameter.Content != nil {
+					cookieValue = jsonText
+				}
 				req.AddCookie(&http.Cookie{
 					Name:  parameter.Name,
-					Value: defaultValueToString(value, false),
+					Value: cookieValue,
 				})
 			}
 		}
